@@ -85,17 +85,27 @@ def render_stmt(s):
     raise ValueError(k)
 
 
-def render_sections(sections, ending):
+def render_sections(sections, ending, decor="plain"):
+    """decor: plain | comments (a comment line before and a trailing comment on every statement) | blank (an empty
+    line after every statement) | crlf (Windows line ends) - none of them changes the meaning of the definition"""
     lines = []
     for j, sec in enumerate(sections):
         if j:
             lines.append("---")
-        lines.extend(render_stmt(s) for s in sec)
-    text = "\n".join(lines)
+        for k, st in enumerate(sec):
+            text = render_stmt(st)
+            if decor == "comments":
+                lines.append("# about statement %d" % k)
+                text += "  # trailing %d" % k
+            lines.append(text)
+            if decor == "blank":
+                lines.append("")
+    eol = "\r\n" if decor == "crlf" else "\n"
+    text = eol.join(lines)
     if ending == "nl":
-        text += "\n"
+        text += eol
     elif ending == "comment":
-        text += "\n# the end"
+        text += eol + "# the end"
     return text
 
 
@@ -346,7 +356,7 @@ def run_impl(cases):
             lookups = set()
             tgt_file = base / "t" / rel_path(case["id"])
             tgt_file.parent.mkdir(parents=True, exist_ok=True)
-            tgt_file.write_text(render_sections(case["sections"], case["ending"]), encoding="utf8")
+            tgt_file.write_bytes(render_sections(case["sections"], case["ending"], case.get("decor", "plain")).encode("utf8"))
             for d in case["deps"]:
                 top = base / ("l" if d["lookup"] else "t")
                 p = top / rel_path({"root": d["root"], "ns": d["ns"], "short": d["short"], "ver": d["ver"]})
@@ -615,7 +625,8 @@ def gen_skeleton(rng, service=None, union=None, with_deps=None, deprecated=None)
         deps.append(gen_dep(rng, ident, k, deprecated and rng.random() < 0.6))
     refs = [dep_ref(rng, ident, d) for d in deps]
     case = {"id": ident, "allow": allow, "deps": deps, "sections": [], "tags": [],
-            "ending": rng.choice(["nl", "nl", "none", "none", "comment"]), "api": "namespace" if rng.random() < 0.8 else "files"}
+            "ending": rng.choice(["nl", "nl", "none", "none", "comment"]), "api": "namespace" if rng.random() < 0.8 else "files",
+            "decor": rng.choice(["plain", "plain", "plain", "comments", "blank", "crlf"])}
     case["sections"].append(gen_section(rng, ident, refs, True, deprecated, force_union=union))
     if service:
         case["sections"].append(gen_section(rng, ident, refs, False, deprecated, force_union=None))
@@ -1115,7 +1126,14 @@ def inj_const_value(rng, case):
     return "const-value:" + k
 
 
-INJECTORS = [inj_width, inj_trunc_signed, inj_capacity, inj_attr_name, inj_dup_attr, inj_union_arity, inj_union_pad, inj_void,
+def inj_shuffle(rng, case):
+    """not a violation by itself: a random permutation of the statements of one section (explores placements)"""
+    j = rng.randrange(len(case["sections"]))
+    rng.shuffle(case["sections"][j])
+    return "shuffle"
+
+
+INJECTORS = [inj_shuffle, inj_width, inj_trunc_signed, inj_capacity, inj_attr_name, inj_dup_attr, inj_union_arity, inj_union_pad, inj_void,
              inj_utf8_byte, inj_deprecated_dep, inj_service_ref, inj_undefined_ref, inj_mode_missing, inj_mode_dup,
              inj_extent_not_last, inj_extent_value, inj_directive, inj_third_section, inj_version, inj_port, inj_type_name,
              inj_name_length, inj_const_value]
@@ -1150,7 +1168,7 @@ def gen_planted(rng, nviol, injectors=None):
 def minimal(root="ns", service=False, port=None, allow=False, ver=(1, 0), short="T"):
     secs = [[["dir", "sealed", None]]] + ([[["dir", "sealed", None]]] if service else [])
     return {"id": {"root": root, "ns": [], "short": short, "ver": list(ver), "port": port}, "allow": allow, "deps": [],
-            "sections": secs, "tags": [], "ending": "nl", "api": "namespace"}
+            "sections": secs, "tags": [], "ending": "nl", "api": "namespace", "decor": "plain"}
 
 
 def boundaries(rng):
@@ -1319,7 +1337,7 @@ def describe(case, obs):
     v = "accepted" if obs["verdict"] == "accept" else "rejected" if obs["verdict"] == "InvalidDefinition" else "other:" + obs["verdict"]
     tags = case["tags"]
     planted = [t for t in tags if not t.startswith("boundary:")]
-    keys = ["verdict:" + v, "api:" + case["api"], "ending:" + case["ending"], "allow_unregulated:%s" % case["allow"],
+    keys = ["verdict:" + v, "api:" + case["api"], "ending:" + case["ending"], "decor:" + case.get("decor", "plain"), "allow_unregulated:%s" % case["allow"],
             "kind:%s" % ("service" if len(case["sections"]) == 2 else "message" if len(case["sections"]) == 1 else "3+sections"),
             "deps:%d" % min(len(case["deps"]), 3)]
     if not tags:
@@ -1369,7 +1387,7 @@ RULE = ("a case is one definition in abstract form (identity, statements per sec
         "with its dependencies into a scratch root namespace (plus lookup namespaces) and read with read_namespace (80 %) or "
         "read_files (20 %), allow_unregulated_fixed_port_id both ways; streams: boundary neighbours of every numeric rule and every "
         "reserved name/pattern with near misses (targeted), the grid message/service x structure/union x deps x deprecated of valid "
-        "skeletons, and skeletons with 0, 1 or 2 planted violations out of 23 categories at random positions (random); "
+        "skeletons, and skeletons with 0, 1 or 2 planted violations out of 23 categories (plus random permutations of a section) at random positions (random); "
         "non-trivial = at least two statements; distinct = by hash of the case")
 THEOREMS_NOTE = "C05_iff: accept env d = true <-> Valid env d; the comparer checks implementation verdict = accept and rejection class = InvalidDefinitionError"
 TRUSTED = ["the renderer abstract definition -> DSDL text in harness/props/c05.py (one statement per line) and the PEG grammar are exercised, not modelled",
